@@ -123,10 +123,12 @@ TEMPLATES = [
     ("any of them at {0}", 1), ("uint8({0}) == {1}", 2), ("filesize > {0}", 1), ("({0} + {1}) * {2} == {3}", 4),
     ("$b at {0} and #a >= {1}", 2), ("for all of them : (# >= {0})", 1), ("@b == {0} or $a at {1}", 2), ("$a at {0} + {1}", 2),
     ("$a in ({0}..filesize)", 1), ("#a == {0} and #b == {1}", 2), ("{0} of ($a,$b) at {1}", 2),
+    ("$a at {0} or $a at {1}", 2), ("$a at filesize - {0}", 1), ("$a at {0} and $b at {1}", 2), ("$b at {0} + filesize - filesize", 1),
 ]
 
 
-DIRECTED = [("any of them at {0}", "p2"), ("any of ($a*) in ({0}..{1})", "p2-1,p2+1"), ("2 of them in ({0}..{1})", "p2-2,end"),
+DIRECTED = [("$a at {0}", "p2"), ("$a at {0} or $b at {1}", "p2,end"), ("{0} of them", "zero"), ("{0} of ($a,$b) in ({1}..{2})", "zero,p2,end"),
+            ("{0} of ($a*) at {1}", "zero,p2"), ("any of them at {0}", "p2"), ("any of ($a*) in ({0}..{1})", "p2-1,p2+1"), ("2 of them in ({0}..{1})", "p2-2,end"),
             ("none of them in ({0}..{1})", "p2,p2"), ("1 of ($a,$b) at {0}", "p2"), ("all of ($a*) in ({0}..{1})", "p2,end")]
 
 
@@ -153,7 +155,10 @@ def gen_twin_group(r, gid):
         gap = bytes(r.choice(b"._ ") for _ in range(r.randint(1, 9)))
         buf = bytearray(gap + pa + gap + pa + bytes(r.choice(b"._") for _ in range(r.randint(0, 6))) + (pb if r.random() < 0.5 else b""))
         p2 = len(gap) + len(pa) + len(gap)
-        env = {"p2": p2, "p2-1": max(0, p2 - 1), "p2+1": p2 + 1, "p2-2": max(0, p2 - 2), "end": len(buf)}
+        if "zero" in directed:                     # quantifier 0 and none of the strings present: only evaluation can make it true
+            buf = bytearray(bytes(r.choice(b"._ ") for _ in range(r.randint(0, 12))))
+            p2 = len(buf) // 2
+        env = {"p2": p2, "p2-1": max(0, p2 - 1), "p2+1": p2 + 1, "p2-2": max(0, p2 - 2), "end": len(buf), "zero": 0}
         offs = [len(gap), p2]
     pool = offs + [0, 1, 2, 3, len(buf), max(0, len(buf) - 1), len(pa), len(pb), 50, 100]
     vals = []
@@ -184,6 +189,7 @@ def gen_twin_group(r, gid):
     out.append(("ext_rdef", "g%d_ext_rdef %s src=%s %s %s" % (gid, cextw, hx(ext_cond), " ".join("rext=i:%s:%d" % (n, v) for n, v in zip(names, vals)), b)))
     out.append(("ext_sdef", "g%d_ext_sdef %s src=%s %s %s" % (gid, cextw, hx(ext_cond), " ".join("sext=i:%s:%d" % (n, v) for n, v in zip(names, vals)), b)))
     out.append(("fast", "g%d_fast src=%s fast=1 %s" % (gid, hx(rule(base_cond)), b)))
+    out.append(("fast_ext", "g%d_fast_ext %s src=%s fast=1 %s" % (gid, cext, hx(ext_cond), b)))
     # atom quality tables: every 4-byte window of the planted bytes gets a random quality
     for qi in range(2):
         ents = {}
@@ -289,7 +295,7 @@ def run(tier, replay=None):
             v = res[n]
             if base[0] == "OK":
                 ok = (v == base)
-            elif n in ("forced", "constexpr", "fast", "atomq0", "atomq1"):
+            elif n in ("forced", "constexpr", "fast", "atomq0", "atomq1"):    # (fast_ext: externals, compared only when base compiles)
                 ok = (v[0] == base[0] and v[1] == base[1])      # same compile error
             else:
                 ok = True                                       # externals are unknown at compile time: no compile-time rejection expected
